@@ -3,6 +3,8 @@ package props
 import (
 	"encoding/json"
 	"fmt"
+	vuego "github.com/titpetric/vuego"
+	"regexp"
 	"strings"
 
 	"verifharness/core"
@@ -54,7 +56,8 @@ var c03Undecided = []TV{{K: "nil*Item"}, {K: "nilslice"}, {K: "nilmap"},
 // verdicts about chain structure.
 var c03UniformOnly = []TV{{K: "string", S: "false"}, {K: "string", S: "true"}, {K: "string", S: "FALSE"}, {K: "*bool"}}
 
-var c03Placements = []string{"top", "nested", "for", "template", "ws", "comment", "adjacent", "beforefor", "table", "component", "slot", "layout"}
+// incmember / shortmember: the chain members are include tags / shorthand component tags themselves (a conditional include)
+var c03Placements = []string{"top", "nested", "for", "template", "ws", "comment", "adjacent", "beforefor", "table", "component", "slot", "layout", "incmember", "shortmember"}
 
 type c03 struct{}
 
@@ -71,7 +74,7 @@ func init() {
 
 func (p *c03) ID() string { return "C03" }
 func (p *c03) Rule() string {
-	return "chain part: every shape v-if + k x v-else-if (k<=2 quick, k<=3 thorough) with/without v-else x every truth assignment x 12 placements (top, nested, inside v-for with per-item conditions, on <template>, whitespace/comment between members, two adjacent chains, chain directly before a v-for sibling, inside table rows, inside an included component, inside slot content, inside a layout) x condition form (bare, negated) x a rotation through all Go value kinds realising each truth value; lazy part: every chain of 1-3 v-else-if (with/without v-else) x every position of the first truthy member that is followed by a v-else-if x later conditions that call a function returning an error / a counting function x {top, v-for, <template>, component}: the taken branch is rendered and the render does not fail; uniform part: every value of the truthy/falsy/undecided catalogue (all numeric widths, strings incl. \"0\" and \"false\", nil, missing, pointers, slices, maps, structs) x {v, o.v, v as the item of a loop whose variable shadows a truthy outer v} read in v-if, v-else-if, v-show, :attr, :class object and their negations in v-if/v-else-if/v-show; non-trivial = every generated case (each has a condition decided by data); distinct by (shape, placement, form, values)"
+	return "chain part: every shape v-if + k x v-else-if (k<=2 quick, k<=3 thorough) with/without v-else x every truth assignment x 14 placements (the chain members being include tags / shorthand component tags themselves, top, nested, inside v-for with per-item conditions, on <template>, whitespace/comment between members, two adjacent chains, chain directly before a v-for sibling, inside table rows, inside an included component, inside slot content, inside a layout) x condition form (bare, negated) x a rotation through all Go value kinds realising each truth value; lazy part: every chain of 1-3 v-else-if (with/without v-else) x every position of the first truthy member that is followed by a v-else-if x later conditions that call a function returning an error / a counting function x {top, v-for, <template>, component}: the taken branch is rendered and the render does not fail; uniform part: every value of the truthy/falsy/undecided catalogue (all numeric widths, strings incl. \"0\" and \"false\", nil, missing, pointers, slices, maps, structs) x {v, o.v, v as the item of a loop whose variable shadows a truthy outer v} read in v-if, v-else-if, v-show, :attr, :class object and their negations in v-if/v-else-if/v-show; non-trivial = every generated case (each has a condition decided by data); distinct by (shape, placement, form, values)"
 }
 
 func (p *c03) maxK(ctx core.Ctx) int { return ctx.Pick(2, 3) }
@@ -232,9 +235,10 @@ func (p *c03) Exec(ctx core.Ctx, cc any) core.Obs {
 	var tpl string
 	var files map[string]string
 	var want []string
+	withComponents := false
 	tag := "p"
 	switch c.Placement {
-	case "top", "nested", "ws", "comment", "template", "beforefor", "table", "memberfor", "component", "slot", "layout":
+	case "top", "nested", "ws", "comment", "template", "beforefor", "table", "memberfor", "component", "slot", "layout", "incmember", "shortmember":
 		c03Data(c.Vals, "c", data)
 		sep := ""
 		switch c.Placement {
@@ -268,6 +272,15 @@ func (p *c03) Exec(ctx core.Ctx, cc any) core.Obs {
 		}
 		want = append(want, "post")
 		switch c.Placement {
+		case "incmember", "shortmember":
+			// <p DIR data-m="M">x</p>  ->  an include of a component that renders <p data-m="M">
+			re := regexp.MustCompile(`<p (v-if="[^"]*"|v-else-if="[^"]*"|v-else) data-m="([^"]*)">x</p>`)
+			repl := `<template $1 include="components/MBox.vuego" mk="$2"></template>`
+			if c.Placement == "shortmember" {
+				repl = `<m-box $1 mk="$2"></m-box>`
+				withComponents = true
+			}
+			files = map[string]string{"page.vuego": `<section data-m="wrap">` + pre + re.ReplaceAllString(chain, repl) + post + `</section>`, "components/MBox.vuego": `<p :data-m="mk">x</p>`}
 		case "component":
 			files = map[string]string{"page.vuego": `<template include="c.vuego"></template>`, "c.vuego": `<section data-m="wrap">` + pre + chain + post + `</section>`}
 		case "slot":
@@ -305,7 +318,10 @@ func (p *c03) Exec(ctx core.Ctx, cc any) core.Obs {
 	}
 	var out string
 	var err error
-	if files != nil {
+	if files != nil && withComponents {
+		out, err = renderFile(memFS(files), "page.vuego", data, vuego.WithComponents())
+		tpl = mustJSON(files)
+	} else if files != nil {
 		out, err = renderFile(memFS(files), "page.vuego", data)
 		tpl = mustJSON(files)
 	} else {
